@@ -1,6 +1,7 @@
 """C06 - Parse / re-serialise is byte-exact; stacked pickles partition the input."""
 import io
 import os
+import pickle
 import shutil
 import pickletools
 
@@ -26,7 +27,7 @@ CONFIG = dict(
     min_nontrivial={"quick": 1500, "thorough": 30000},
     nshards={"quick": 8, "thorough": 16},
     timeout={"quick": 600, "thorough": 3600},
-    required_counters=("dump_file_checks", "bytes_checks", "seekable_checks", "nonseekable_checks", "stack_checks"),
+    required_counters=("copied_result_checks", "dump_file_checks", "bytes_checks", "seekable_checks", "nonseekable_checks", "stack_checks"),
 )
 
 VARLEN = {"STRING", "BINSTRING", "SHORT_BINSTRING", "BINBYTES", "SHORT_BINBYTES", "BINBYTES8", "BYTEARRAY8",
@@ -411,6 +412,28 @@ def stack_checks(ctx, pool, rng, n_stacks):
                               f"stack of {k} pickles parsed into {len(sp)} elements or elements differ from the parts",
                               {"label": "stack", "hex": data[:3000].hex(), "k": k, "stream": kind,
                                "part_lens": [len(x) for x in parts], "got_lens": [len(x) for x in got]})
+                continue
+            if kind == "bytes":
+                # the untouched result handed on as a copy (copy / deepcopy / shipped to another worker as a pickle of
+                # the library's own object): the copy re-serialises to the same bytes as what it was copied from
+                import copy
+                for how, fn in (("copy", copy.copy), ("deepcopy", copy.deepcopy),
+                                ("pickle-round-trip", lambda o: pickle.loads(pickle.dumps(o)))):
+                    for whole in (False, True):
+                        try:
+                            cp = [x.dumps() for x in fn(sp)] if whole else [fn(x).dumps() for x in sp]
+                        except RecursionError:
+                            continue
+                        except Exception as e:
+                            cp = f"{type(e).__name__}: {str(e)[:80]}"
+                        agg.count("copied_result_checks")
+                        if cp != parts:
+                            agg.violation(f"copy-of-result-differs:{how}",
+                                          f"a {how} of the untouched {'stack' if whole else 'stack element'} re-serialises to other bytes than the "
+                                          f"pickle it was parsed from ({cp if isinstance(cp, str) else [len(x) for x in cp]})",
+                                          {"label": "stack", "hex": data[:3000].hex(), "k": k, "stream": kind, "copied": how,
+                                           "part_lens": [len(x) for x in parts]})
+                            break
     # stacks read from a file opened by a relative name, after the working directory moved to a place where another,
     # shorter file has the same name (what belongs to the open descriptor is what counts, not what the name means now)
     here = os.path.join(ctx.scratch, "c06_run_a")
